@@ -21,6 +21,11 @@ from typing import Dict, List, Optional, Tuple
 REPO = os.environ.get("SPECKIT_REPO", "/repo")
 
 
+def re_fullmatch(pat: str, txt: str):
+    import re as _re
+    return _re.fullmatch(pat, txt)
+
+
 class Unsupported(Exception):
     pass
 
@@ -68,7 +73,7 @@ class Env:
 
 VEC_ELEM = {"A": "R", "AB": "B", "AZ": "Z"}        # NumPy vectors: element kind
 VEC_OF = {"R": "A", "B": "AB", "Z": "AZ", "N": "AZ"}
-VEC_TY = {"A": "Arr α", "AB": "Arr Bool", "AZ": "Arr Int"}
+VEC_TY = {"A": "Arr α", "AB": "Arr Bool", "AZ": "Arr Int", "AAZ": "Arr (Arr Int)"}
 
 UNARY_CALLS = {
     "cos": "RealLike.cos", "sin": "RealLike.sin", "sqrt": "RealLike.sqrt", "exp": "RealLike.exp",
@@ -163,7 +168,7 @@ class FnTranslator:
         raise Unsupported(f"line {getattr(e, 'lineno', '?')}: expression {type(e).__name__}")
 
     LT_ALL = {"R": "α", "N": "Nat", "Z": "Int", "B": "Bool", "LR": "List α", "LZ": "List Int", "A": "Arr α", "A2": "Arr2 α", "IA": "Arr Nat",
-              "AB": "Arr Bool", "AZ": "Arr Int", "FZ": "Int → Int", "OZ": "Option Int"}
+              "AB": "Arr Bool", "AZ": "Arr Int", "FZ": "Int → Int", "OZ": "Option Int", "AAZ": "Arr (Arr Int)"}
 
     def coerce(self, v: Val, kind: str, lineno: int = 0) -> Val:
         if v.kind == kind:
@@ -313,6 +318,17 @@ class FnTranslator:
             return Val(f"(Np.searchsortedLeft {e.args[0].id} {v.code})", "N")
         if name == "len" and len(e.args) == 1 and isinstance(e.args[0], ast.Name) and env.kinds.get(e.args[0].id) in VEC_ELEM:
             return Val(f"{e.args[0].id}.n", "N")
+        if env.pw and np_call and name == "arange" and len(e.args) == 1 and not e.keywords:
+            return Val("i_", "N")                                   # element i of arange(k) is i
+        if env.pw and np_call and name == "divide" and len(e.args) == 2:
+            kws = {k.arg: k.value for k in e.keywords}
+            if set(kws) != {"out", "where"} or not re_fullmatch(r"np\.zeros_like\(\w+, dtype=float\)", ast.unparse(kws["out"])):
+                raise Unsupported(f"line {e.lineno}: np.divide form")
+            a, b = self.to_real(self.expr(e.args[0], env)), self.to_real(self.expr(e.args[1], env))
+            c = self.expr(kws["where"], env)
+            if c.kind != "B":
+                raise Unsupported(f"line {e.lineno}: np.divide where= kind")
+            return Val(f"(if {c.code} then ({a.code} / {b.code}) else (RealLike.ofNat 0))", "R")   # untouched entries keep out's zeros
         if env.pw and np_call and name == "round" and len(e.args) == 1:
             v = self.to_real(self.expr(e.args[0], env))          # np.round keeps the float dtype
             return Val(f"((RealLike.ofInt (RealLike.roundEven {v.code})) : α)", "R")
@@ -408,6 +424,8 @@ class FnTranslator:
         """does the expression denote / combine whole vectors (as opposed to reading single elements)?"""
         if not self.vector_mode:
             return False
+        if isinstance(e, ast.ListComp):
+            return True
         if isinstance(e, ast.Name):
             return env.kinds.get(e.id) in VEC_ELEM or e.id in getattr(self, "lv", {})
         if isinstance(e, ast.Subscript):
@@ -418,7 +436,7 @@ class FnTranslator:
             fu = ast.unparse(e.func)
             if fu in ("len", "np.searchsorted"):
                 return False
-            if fu == "np.logspace":
+            if fu in ("np.logspace", "np.arange"):
                 return True
             parts = list(e.args) + [k.value for k in e.keywords]
             if isinstance(e.func, ast.Attribute) and not isinstance(e.func.value, ast.Name):
@@ -429,6 +447,16 @@ class FnTranslator:
         return any(self.mentions_vector(c, env) for c in ast.iter_child_nodes(e) if isinstance(c, ast.expr))
 
     def vec_len(self, e: ast.AST, env: Env) -> str:
+        for n in ast.walk(e):
+            if isinstance(n, ast.Call) and ast.unparse(n.func) == "np.arange" and len(n.args) == 1 and not n.keywords:
+                e0 = env.copy()
+                e0.pw = False
+                k = self.expr(n.args[0], e0)
+                if k.kind == "N":
+                    return k.code
+                if k.kind == "Z":
+                    return f"(Int.toNat {k.code})"
+                raise Unsupported(f"line {n.lineno}: np.arange bound kind")
         for n in ast.walk(e):
             if isinstance(n, ast.Name) and env.kinds.get(n.id) in VEC_ELEM:
                 return f"{n.id}.n"
@@ -448,6 +476,26 @@ class FnTranslator:
             if n.kind != "N":
                 raise Unsupported(f"line {e.lineno}: np.logspace count")
             return Val(f"(Arr.memo (Np.logspace {a.code} {b.code} {n.code}))", "A")
+        if isinstance(e, ast.ListComp):
+            # [vec_expr(k, s, …) for k, s, … in zip(K, S, …)]  ->  one vector per position j_
+            if len(e.generators) != 1 or e.generators[0].ifs or e.generators[0].is_async:
+                raise Unsupported(f"line {e.lineno}: list comprehension form")
+            g = e.generators[0]
+            it = g.iter
+            if not (isinstance(it, ast.Call) and ast.unparse(it.func) == "zip" and isinstance(g.target, ast.Tuple)
+                    and len(g.target.elts) == len(it.args) and all(isinstance(t, ast.Name) for t in g.target.elts)
+                    and all(isinstance(a, ast.Name) and env.kinds.get(a.id) in VEC_ELEM for a in it.args)):
+                raise Unsupported(f"line {e.lineno}: list comprehension must iterate zip(<vectors>) into names")
+            e2 = env.copy()
+            lets = ""
+            for t, a in zip(g.target.elts, it.args):
+                ek = VEC_ELEM[env.kinds[a.id]]
+                e2.kinds[t.id] = ek
+                lets += f"let {t.id} : {self.LT_ALL[ek]} := {a.id}.get j_; "
+            inner = self.vector_value(e.elt, e2)
+            if inner.kind != "AZ":
+                raise Unsupported(f"line {e.lineno}: list comprehension element kind {inner.kind}")
+            return Val(f"(⟨{it.args[0].id}.n, fun j_ => {lets}{inner.code}⟩ : Arr (Arr Int))", "AAZ")
         ln = self.vec_len(e, env)
         e2 = env.copy()
         e2.pw = True
@@ -1168,6 +1216,26 @@ def _starts_function(fn: ast.FunctionDef) -> ast.FunctionDef:
     return new
 
 
+def _post_function(fn: ast.FunctionDef, name: str) -> ast.FunctionDef:
+    """the closed-form post-processing of vectorized_ltf_plan / new_ltf_plan (segment shift, start positions D, overlap O)
+    as a function of (N, L, K): the three top-level assignments to `shift`, `D`, `O` after the walk, translated as they stand."""
+    got = {}
+    for st in fn.body:
+        if isinstance(st, ast.Assign) and len(st.targets) == 1 and isinstance(st.targets[0], ast.Name) and st.targets[0].id in ("shift", "D", "O"):
+            if st.targets[0].id in got:
+                raise Unsupported(f"{fn.name}: {st.targets[0].id} assigned twice")
+            got[st.targets[0].id] = st
+    if list(got) != ["shift", "D", "O"]:
+        raise Unsupported(f"{fn.name}: post-processing assignments found: {list(got)} (expected shift, D, O in this order)")
+    body = [got["shift"], got["D"], got["O"], ast.parse("return (shift, D, O)").body[0]]
+    new = ast.FunctionDef(name=name, args=ast.arguments(posonlyargs=[], args=[ast.arg(arg="N"), ast.arg(arg="L"), ast.arg(arg="K")],
+                          kwonlyargs=[], kw_defaults=[], defaults=[]), body=body, decorator_list=[], lineno=got["shift"].lineno)
+    ast.fix_missing_locations(new)
+    new.lineno, new.end_lineno = got["shift"].lineno, got["O"].end_lineno
+    new.__dict__["_file"] = fn.__dict__.get("_file", "")
+    return new
+
+
 def gen_sched(repo: str = REPO) -> Tuple[str, List[str]]:
     """the main `while fi < fmax` walk of ltf_plan and new_ltf_plan (statements up to and including the loop),
     returning the five per-bin lists (f, r, b, L, K); the start positions / overlaps are hand-modelled."""
@@ -1189,6 +1257,18 @@ def gen_sched(repo: str = REPO) -> Tuple[str, List[str]]:
             errors.append(f"{name}: {ex}")
             msg = str(ex).replace("-/", "- /")
             out += f"/- UNSUPPORTED {name}: {msg} -/\ndef {name}_UNSUPPORTED : Nat := translation_failed_{name}\n\n"
+    for name in ("vectorized_ltf_plan", "new_ltf_plan"):
+        try:
+            if name not in fns:
+                raise Unsupported("function not found")
+            tr = FnTranslator(_post_function(fns[name], name + "_post"), {"N": "Z", "L": "AZ", "K": "AZ"}, {}, name + "_post")
+            tr.vector_mode = True
+            text, _ = tr.translate()
+            out += text + "\n"
+        except Unsupported as ex:
+            errors.append(f"{name}_post: {ex}")
+            msg = str(ex).replace("-/", "- /")
+            out += f"/- UNSUPPORTED {name}_post: {msg} -/\ndef {name}_post_UNSUPPORTED : Nat := translation_failed_{name}_post\n\n"
     # the start positions of ltf_plan (the per-bin body of its second loop)
     try:
         if "ltf_plan" not in fns:
